@@ -23,6 +23,19 @@ var targetFile = map[string]string{
 	"GetContextError":       "GenErrors",
 	"NewWrappedSystemError": "GenErrors",
 	"GetSystemErrorMessage": "GenErrors",
+	"GetSystemErrorCode":  "GenRetry",
+	"getErrCode":          "GenRetry",
+	"CanRetry":            "GenRetry",
+	"SetPayloadSize":      "GenFrame",
+	"PayloadSize":         "GenFrame",
+	"finishesCall":        "GenFrame",
+	"frameTypeFor":        "GenFrame",
+	"isMessageTypeCall":   "GenFrame",
+	"hasMoreFragments":    "GenFrame",
+	"isCallResOK":         "GenFrame",
+	"ChecksumSize":        "GenFrame",
+	"poolIndex":           "GenFrame",
+	"isEphemeralHostPort": "GenHandshake",
 }
 
 // varFields: constant fields of package-level composite-literal variables.
@@ -123,4 +136,7 @@ var targets = []Target{
 		SHints: map[string]string{
 			"if se, ok := err.(SystemError); ok {\n\treturn se.Message()\n}": "if is_sys err then sys_msg err else",
 		}},
+	// peer.go: which announced host:port values count as ephemeral (C13)
+	{Func: "isEphemeralHostPort", Out: "isEphemeralHostPort", Params: "(hostPort : list Z) (has_suffix_colon0 : bool)", Ret: "bool",
+		Hints: map[string]string{"strings.HasSuffix(hostPort, \":0\")": "has_suffix_colon0"}},
 }
